@@ -1,4 +1,5 @@
 from ..core import hexs
+from .. import world
 
 T = "Tinode.Props.C04."
 
@@ -54,18 +55,26 @@ PROP = dict(
     id="C04",
     level_text="Kernel-checked Lean theorems: for every list of well-formed ranges, Normalize(sort(rs)) denotes exactly the union of "
                "the listed ids and is collapsed (proved by induction over the sorted list); tied to types.go by an exhaustive "
-               "differential run over all short range lists plus random long ones.",
+               "differential run over all short range lists plus random long ones. Layers 2-4 (Props/C04b.lean): a delete request's "
+               "converted ranges denote exactly the requested ids clipped to existing ones (with normalize_union: the stored list hides "
+               "exactly the union), malformed entries reject the request, deleting needs D or at least R; a history query returns only "
+               "stored, not hard-deleted messages of the topic in [since, before) which the asking user has not soft-deleted, at most the "
+               "limit, all of them when they fit, nothing without R. The world stream ties these to the real handlers and store "
+               "contract; the history monitor recomputes every {get data} answer and every {del msg} effect from the stored state.",
     level_note="Trusted: Lean kernel; Model/Ranges.lean is a functional rendering (accumulator instead of in-place prev/i indices) "
-               "of RangeSorter.Normalize, tied to the code by the differential run only. Layers 2-4 of C04 (delete gate, history "
-               "query, deletion log through the topic and store) are covered by the topic model when present in this check.",
-    technique="Lean 4 proof (induction over sorted range lists, omega) + exhaustive differential correspondence",
-    modules=["TinodeVerif.Props.C04"],
-    theorems=[T + n for n in ["normalize_union", "normalize_separated"]],
-    streams=[dict(name="rng", pkg="types", gen=gen_rng, classify=classify)],
+               "of RangeSorter.Normalize, tied to the code by the differential run only. Layers 2-4 are over the hand-written world "
+               "model (group topics, in-memory adapter written from the MySQL adapter's statements); channel readers' author "
+               "withholding and timestamps are outside the model.",
+    technique="Lean 4 proof (induction over sorted range lists, omega; list lemmas over the query and delete paths) + exhaustive differential "
+              "correspondence (ranges) + differential world stream with a history monitor",
+    modules=["TinodeVerif.Props.C04", "TinodeVerif.Props.C04b"],
+    theorems=[T + n for n in ["normalize_union", "normalize_separated", "conv_one", "conv_exact", "conv_rejects", "query_sound", "query_limit",
+                              "query_complete", "no_read_no_history", "delete_needs_permission"]],
+    streams=[dict(name="rng", pkg="types", gen=gen_rng, classify=classify), world.world_stream("C04")],
     seeds=dict(quick=1, thorough=3),
     exhaustive=dict(quick=True, thorough=True),
     rule="all lists of <=3 well-formed ranges over ids 0..6 (quick) / 0..7 (thorough), as replyDelMsg canonicalises them, plus random "
          "lists of up to 9 ranges over up to 40 ids; sorted by RangeSorter then normalised; non-trivial = at least two input ranges",
     assumptions=["ranges reaching Normalize are well formed (0 <= low, hi = 0 or low < hi) and sorted by RangeSorter.Less, as both call sites ensure"],
-    trusted=[],
+    trusted=world.WORLD_TRUSTED,
 )
